@@ -21,12 +21,16 @@ U = {'url1': 'https://sp1.verif.example/acs/one', 'url2': 'https://sp1.verif.exa
      'slo2': 'https://sp1.verif.example/slo/redirect', 'sloB': 'https://sp2.verif.example/slo',
      'url1-case': 'https://SP1.verif.example/acs/one', 'url1-slash': 'https://sp1.verif.example/acs/one/',
      'url1-query': 'https://sp1.verif.example/acs/one?x=1', 'url1-port': 'https://sp1.verif.example:8443/acs/one',
-     'url1-prefix': 'https://sp1.verif.example/acs/on', 'url1-parent': 'https://sp1.verif.example/acs/', 'unregistered': 'https://evil.example/acs'}
+     'url1-prefix': 'https://sp1.verif.example/acs/on', 'url1-parent': 'https://sp1.verif.example/acs/',
+     'url1-pct': 'https://sp1.verif.example/%61cs/one', 'unregistered': 'https://evil.example/acs'}
 UREV = dict((v, k) for k, v in U.items())
 ACS = {'L1': [('POST', 'url1', 1)], 'L2': [('POST', 'url1', 1), ('POST', 'url2', 2), ('Redirect', 'url3', 3)],
        'L3': [('Redirect', 'url3', 1)], 'L4': [('Artifact', 'url4', 2), ('POST', 'url1', 1)]}
 SP1, SP2 = 'urn:verif:sp1', 'urn:verif:sp2-other'
 ISS = {'sp1': SP1, 'sp2': SP2, 'unknown': 'urn:verif:nobody'}
+IDS = {'urn': {'sp1': SP1, 'sp2': SP2, 'unknown': 'urn:verif:nobody', 'sp1-slash': SP1 + '/', 'sp1-case': 'urn:verif:SP1'},
+       'url': {'sp1': 'https://sp1.verif.example/metadata', 'sp2': 'https://sp2.verif.example/metadata/', 'unknown': 'https://nobody.example/metadata',
+               'sp1-slash': 'https://sp1.verif.example/metadata/', 'sp1-case': 'https://sp1.verif.example/Metadata'}}
 
 
 def sp_md(entity, acs, slo):
@@ -43,6 +47,8 @@ def sp_md(entity, acs, slo):
 def replay(case):
     scn = case['scn']
     slo = [] if scn['layout'] == 'L3' else [('SOAP', 'slo1'), ('Redirect', 'slo2')]
+    ISS = IDS[scn.get('idStyle', 'urn')]
+    SP1, SP2 = ISS['sp1'], ISS['sp2']
     md = [sp_md(SP1, ACS[scn['layout']], slo), sp_md(SP2, [('POST', 'urlB', 1)], [('Redirect', 'sloB')])]
     idp = spc.idp_for(metadata=md)
     now = spc.now()
